@@ -20,6 +20,18 @@ NA = {
 }
 
 CHECKS = {
+ "C08": dict(
+   level="exploration",
+   text="SLICE of the property: storage-fault images of valid sources. Each run takes a real-world corpus file (all 892 walked systematically) or a generated module set and a batch of images of it - truncation at any byte (biased to the last bytes; in the thorough tier every prefix of small generated sources), single-bit flips, 512-byte sector zero-fill/duplicate/swap, splices of two files - delivered as a literal or as a file read through the simulated disk (the seam applies truncation/flip/zero-fill to the bytes in flight), compiles with both backends and renders every error and warning with Display and contextualize. Oracle: the operation returns; no panic (hook + catch_unwind), no SIGSEGV/SIGABRT, no CPU-budget overrun, on 2 MiB and 8 MiB stacks.",
+   note="Not claimed: arbitrary byte soup, grammar-generated MACRO/CLASS/TIME/parameterization notation, cyclic references (they need an input fuzzer, another technique family). Every simulated run executes in a child forked from a parent that never ran compiler code; crash containment and the CPU budget are the worker's.",
+   technique="deterministic simulation with fault injection: seeded storage-fault images (truncation, bit flip, sector faults, splice) delivered through a simulated disk seam, crash/hang supervision per forked run",
+   design="§4 C08"),
+ "C11": dict(
+   level="exploration",
+   text="Deterministic simulation of 1..16 caller threads under a seeded baton scheduler (random, PCT and run-to-completion strategies; yield points at every intercepted libc call and at the verif-hooks points inside lexing, linking, validation and per-definition generation), each thread with a history of compilations over generated module sets, their siblings (same names, different bodies/defaults) and corpus files, in random arrangements (assignment permutation, module order, regrouping into sources), with seeded HashSet keys (getrandom seam) and benign read faults. Oracle: every result is byte-identical (text and warning multiset) to a canonical-order single-threaded compilation in a pristine process of its own.",
+   note="Sampling, not proof. Interleaving granularity is hook points and system calls. Multi-file corpus sets are not combined (finding F1).",
+   technique="deterministic simulation: seeded thread schedules (baton scheduler over real OS threads), process histories, permuted delivery, seeded hash keys; differential against a pristine reference process",
+   design="§4 C11"),
  "C20": dict(
    level="fault_enumeration",
    text="Deterministic simulation of compile() against a simulated disk/stdout/entropy seam (LD_PRELOAD shim deciding libc call outcomes over the real tmpfs). Each seeded workload (generated module set x malformed variant x backend/config x literal/file delivery x builder path x output mode x destination state) is run fault-free to record its I/O trace, then EVERY applicable single fault at EVERY call position of that trace is injected (complete single-fault sweep per workload), then sampled double/triple faults. Oracles: delivered bytes == compile_to_string() from a pristine reference process; failed compilation issues no mutating call (checked on the call history, so it covers every crash point); hard faults become the right Err, never Ok or a panic; benign faults (EINTR, short I/O) are invisible.",
